@@ -94,7 +94,8 @@ func (c *coordinator) ResetWriteCounter()             {}
 // ---------------------------------------------------------------- session
 
 type savedState struct {
-	state mmap.ArenaState
+	state mmap.ArenaState // what GetState returned
+	copy  mmap.ArenaState // private copy taken at that moment: GetState must return a value, not a view
 	val   map[uint32]int64
 }
 
@@ -470,6 +471,7 @@ func (s *session) apply(op ArenaOp, res *Result) (outcome string, notes []string
 		delete(s.val, id)
 	case "Save":
 		sv := &savedState{state: s.arena.GetState(), val: map[uint32]int64{}}
+		sv.copy = copyState(sv.state)
 		for k, v := range s.val {
 			sv.val[k] = v
 		}
@@ -591,6 +593,13 @@ func replayArena(prof ArenaProfile, b ArenaBehaviour, res *Result) error {
 			res.div(b.ID, i, "concurrent_read_mismatch", stp.Op, "a reader running during the cycle read a value different from the last value written", badread...)
 		}
 		prop, shape := s.observe(stp.Exp, res)
+		if s.saved != nil && !(eqI64(toI64(s.saved.state.SlotTable), toI64(s.saved.copy.SlotTable)) &&
+			eqI64(toI64(s.saved.state.FreeSlots), toI64(s.saved.copy.FreeSlots)) && s.saved.state.NextPhysSlot == s.saved.copy.NextPhysSlot) {
+			res.div(b.ID, i, "saved_state_changed", stp.Op, "the allocator state returned by GetState changed after it was returned (a snapshot taken from it would not restore the vectors saved)",
+				fmt.Sprintf("SAVED slotTable %v free %v next %d, now slotTable %v free %v next %d", toI64(s.saved.copy.SlotTable), toI64(s.saved.copy.FreeSlots),
+					s.saved.copy.NextPhysSlot, toI64(s.saved.state.SlotTable), toI64(s.saved.state.FreeSlots), s.saved.state.NextPhysSlot))
+			return nil
+		}
 		if len(prop) > 0 {
 			res.div(b.ID, i, "read_back", stp.Op, "requirement of C18 violated on the real arena", prop...)
 			return nil
